@@ -71,3 +71,30 @@ def runReordering (p : Placer) (maxNbRows maxNbCells : Int) : ReorderPass :=
 
 end Placer
 end ColoVerif.DetPlace
+
+/-! ### `runShifts`: which cells every `runShiftsOnCells` call is given
+
+The solver (lemon NetworkSimplex) is not modelled; the windows are:
+
+  runShifts(nbRows, maxNbCells)        if (nbRows < 2) return; RowNeighbourhood rowsNeighbours(rows, nbRows / 2);
+                                       for (r = 0; r < nbRows(); r += nbRows / 2)
+                                         runShiftsOnRows({r} ∪ rowsBelow(r) ∪ rowsAbove(r), maxNbCells)
+  runShiftsOnRows(rows, maxNbCells)    the same windows as `runReorderingOnRows` (`reorderWindows`), over
+                                       `rowCells(rows)` taken once, *before* the first window of the group —
+                                       but after the shifts of the previous groups (they change the abscissas
+                                       the cells are sorted by)
+-/
+namespace ColoVerif.DetPlace
+
+/-- the row groups of `runShifts(nbRows, ·)`, in order (none when `nbRows < 2`) -/
+def shiftRowGroups (rows : List Row) (nbRows : Int) : List (List Int) :=
+  if nbRows < 2 then []
+  else
+    ((State.intsUpTo rows.length).filter fun r => r % (nbRows.tdiv 2) == 0).map fun r =>
+      r :: ((RowNbh.ofRows rows (nbRows.tdiv 2)).rowsBelow r ++ (RowNbh.ofRows rows (nbRows.tdiv 2)).rowsAbove r)
+
+/-- the windows of one group on the placement as it is when the group starts -/
+def State.shiftWindows (s : State) (group : List Int) (maxNbCells : Int) : List (List Int) :=
+  reorderWindows (s.rowCellsSorted group) maxNbCells
+
+end ColoVerif.DetPlace
